@@ -42,6 +42,7 @@ def run(ctx, rep):
     rep.guarded('L5.l5', l5, ctx, rep)
     rep.guarded('L6.l6', l6, ctx, rep)
     rep.guarded('L7.l7', l7, ctx, rep)
+    rep.guarded('L8.l8', l8, ctx, rep)
 
 
 # --------------------------------------------------------------------- L1 check_fit dominance
@@ -322,6 +323,63 @@ def l5(ctx, rep):
     for f in fits:
         rep.ok('L5.pure', f, f.node.name, 'closure scanned', construct='def fit') if not rng.consumes_unscoped(f) else None
     rep.floor('L5.pure', 'fit entry points', len(fits), 5)
+
+
+# ----------------------------------------------------------------------------- L8 shared module-level models
+def l8(ctx, rep):
+    """A model instance created at import time and fitted / re-parameterised by a library function is shared by every caller:
+    results handed out earlier change under the caller's feet and two calls are no longer independent."""
+    prog = ctx.prog
+    rep.rule('L8.shared', 'no model instance created at module level is fitted or re-parameterised by a library function (every call works on its own objects)')
+    model_qs = {c.qualname for c in prog.classes.values() if c.lookup('fit') is not None}
+    shared = {}  # (module name, global name) -> assignment
+    for mod in prog.modules.values():
+        for st in mod.tree.body:
+            if isinstance(st, ast.Assign) and len(st.targets) == 1 and isinstance(st.targets[0], ast.Name):
+                calls = [c for c in ast.walk(st.value) if isinstance(c, ast.Call) and (prog.resolve(mod, c.func) or '') in model_qs]
+                if calls:
+                    shared[(mod.name, st.targets[0].id)] = st
+    n = 0
+    for (mname, gname), st in sorted(shared.items()):
+        n += 1
+        mutated = None
+        for fn in prog.functions.values():
+            if fn.module.name != mname and not any(isinstance(x, ast.Name) and x.id == gname for x in ast.walk(fn.node)):
+                continue
+            if any(isinstance(x, ast.Name) and x.id == gname and isinstance(x.ctx, ast.Store) for x in ast.walk(fn.node)):
+                continue  # a local of the same name
+            derived = set()
+            for s_ in walk_no_nested(fn.node):
+                src = None
+                if isinstance(s_, ast.Assign):
+                    src, tg = s_.value, s_.targets
+                elif isinstance(s_, ast.For):
+                    src, tg = s_.iter, [s_.target]
+                else:
+                    continue
+                if any(isinstance(x, ast.Name) and (x.id == gname or x.id in derived) for x in ast.walk(src)):
+                    for t in tg:
+                        for x in ast.walk(t):
+                            if isinstance(x, ast.Name):
+                                derived.add(x.id)
+            names = derived | {gname}
+            for x in walk_no_nested(fn.node):
+                recv = None
+                if isinstance(x, ast.Call) and isinstance(x.func, ast.Attribute) and isinstance(x.func.value, ast.Name) and x.func.value.id in names \
+                        and (x.func.attr in ('fit', 'set_random_state', '_set_params') or x.func.attr.startswith('_compute')):
+                    recv = x
+                if isinstance(x, ast.Attribute) and isinstance(x.ctx, ast.Store) and isinstance(x.value, ast.Name) and x.value.id in names:
+                    recv = x
+                if recv is not None and mutated is None:
+                    mutated = (fn, recv)
+        cons = f'{mname.replace("copulas.", "", 1)}.{gname}: module-level model instance'
+        if mutated:
+            rep.bad('L8.shared', mutated[0], mutated[1], f'{mutated[0].short} fits / re-parameterises an instance held in the module-level `{gname}` (created once at import, '
+                    f'line {st.lineno}): every call works on the same objects, so a result returned earlier is overwritten by a later call', construct=cons)
+        else:
+            rep.ok('L8.shared', mname.replace('copulas.', '', 1), None, f'`{gname}` holds model instances created at import time; no library function fits or writes them', construct=cons)
+    if n == 0:
+        rep.ok('L8.shared', 'package', None, 'no model instance is created at module level', construct='module-level model instances')
 
 
 # ----------------------------------------------------------------------------- L7 memoisation
